@@ -464,7 +464,9 @@ func endToEnd(r *Result, ca *tlsm.CA) {
 		r.find(Finding{Kind: "disagreement", What: "cannot listen", Input: err.Error()})
 		return
 	}
-	s := &kmip.Server{}
+	// a version list of the server's own - other versions than the Client's defaults, in another order
+	serverVersions := []kmip.ProtocolVersion{{Major: 2, Minor: 0}, {Major: 1, Minor: 4}, {Major: 1, Minor: 3}, {Major: 1, Minor: 0}}
+	s := &kmip.Server{SupportedVersions: append([]kmip.ProtocolVersion(nil), serverVersions...)}
 	var seen []interface{}
 	var mu sync.Mutex
 	s.Handle(kmip.OPERATION_GET, func(ctx *kmip.RequestContext, item *kmip.RequestBatchItem) (interface{}, error) {
@@ -604,9 +606,18 @@ func endToEnd(r *Result, ca *tlsm.CA) {
 				time.Sleep(T + T/2)
 			}
 		}
-		vs, err := cl.DiscoverVersions(nil)
-		if err != nil || len(vs) != 4 {
-			r.find(Finding{Kind: "violation", What: "end to end: DiscoverVersions against the package's own Server", Input: cfgName, Actual: fmt.Sprint(vs, err)})
+		// Discover Versions: what was sent is what the built-in handler receives - an empty query is answered with every version
+		// of the SERVER (whatever the Client's own defaults are), a query with the server's versions among those named
+		for _, q := range []struct{ offer, want []kmip.ProtocolVersion }{
+			{nil, serverVersions},
+			{[]kmip.ProtocolVersion{}, serverVersions},
+			{[]kmip.ProtocolVersion{{Major: 1, Minor: 0}, {Major: 1, Minor: 2}, {Major: 2, Minor: 0}}, []kmip.ProtocolVersion{{Major: 1, Minor: 0}, {Major: 2, Minor: 0}}},
+		} {
+			vs, err := cl.DiscoverVersions(q.offer)
+			r.eval(fmt.Sprintf("end-to-end DiscoverVersions(%v) %s", q.offer, cfgName), true)
+			if err != nil || !reflect.DeepEqual(vs, q.want) {
+				r.find(Finding{Kind: "violation", What: "end to end: DiscoverVersions against the package's own Server did not return what its handler answers to the query that was made", Input: fmt.Sprintf("%s; server versions %v; DiscoverVersions(%v)", cfgName, serverVersions, q.offer), Expect: fmt.Sprint(q.want), Actual: fmt.Sprint(vs, err)})
+			}
 		}
 		cl.Close()
 	}
